@@ -22,7 +22,7 @@ RULE = (
 REQUIRED_OBS = ["family:mime", "family:language", "family:charset", "family:coding", "chosen_none", "chosen_offer", "malformed_q_items", "q0_items",
                 "order_checks", "reach:parse_accept_header", "reach:Accept.best_match", "reach:LanguageAccept.best_match", "reach:MIMEAccept._value_matches"]
 ASSUMPTIONS = [
-    "'q=' with an empty value is ambiguous and not generated; offers carry no media parameters and no wildcards",
+    "'q=' with an empty value is ambiguous and not generated; offers carry no wildcards; media offers may carry parameters (compared as a set, case-insensitively)",
     "for languages 'q=0 is never chosen' is applied within a stage of the documented three-stage fallback",
     "when several equally specific ranges match an offer with different q the check is set-valued",
 ]
@@ -43,22 +43,25 @@ def qval(q):
     return "bad"
 
 
-MEDIA = ["text/html", "text/plain", "text/*", "*/*", "application/json", "application/*", "text/html;level=1", "image/png", "TEXT/HTML"]
-OFF_M = ["text/html", "text/plain", "application/json", "image/png", "application/xml"]
+MEDIA = ["text/html", "text/plain", "text/*", "*/*", "application/json", "application/*", "text/html;level=1", "image/png", "TEXT/HTML",
+         "text/html;level=1;version=2", "text/html;version=2;level=1", "text/*;format=flowed", "*/*;a=1;b=2", "text/plain;format=flowed;delsp=yes"]
+OFF_M = ["text/html", "text/plain", "application/json", "image/png", "application/xml",
+         "text/html;level=1", "text/html; version=2; level=1", "text/plain;delsp=yes;format=flowed"]
 
 
 def m_spec(r):
     t = r.split(";")[0]
     params = r.split(";")[1:]
     ty, su = t.split("/")
-    return (ty != "*", su != "*", len(params) > 0)
+    return (ty != "*", su != "*", len(params))  # a wildcard with parameters is still less specific than a full type
 
 
 def m_match(r, o):
     t = r.split(";")[0].lower()
     params = sorted(p.strip().lower() for p in r.split(";")[1:])
     ty, su = t.split("/")
-    oty, osu = o.lower().split("/")
+    oty, osu = o.lower().split(";")[0].strip().split("/")
+    oparams = sorted(p.strip().lower() for p in o.split(";")[1:])  # parameters are a set: their order does not matter
     if ty == "*" and su != "*":
         return False
     if ty == "*":
@@ -67,7 +70,7 @@ def m_match(r, o):
         return False
     if su == "*":
         return True
-    return su == osu and params == []
+    return su == osu and params == oparams
 
 
 def l_spec(r):
